@@ -1648,6 +1648,14 @@ impl R2 {
                 let fs = self.walk(m.short, &o.path2).unwrap_or(m.short);
                 self.flow_withdrawal(w, rec, &user, o.m, &nonce, amt, fl, fs, &o.path, &o.path2);
             }
+            "increase" | "decrease" => {
+                // collateral on the chosen side, position side from the parity of `a`; leverage 2
+                let is_long = o.a % 2 == 1;
+                let inc = o.op == "increase";
+                let col = self.units(side_tok, usd);
+                let size = (usd as u128) * 2 * 100_000_000_000_000_000_000u128;
+                self.flow_position(w, rec, &user, o.m, &nonce, inc, is_long, o.side_long, if inc { col } else { col / 2 }, if inc { size } else { size / 2 });
+            }
             "swap_path" => {
                 let out = o.tok_out.or_else(|| self.walk(o.tok, &o.path)).unwrap_or(o.tok);
                 let om = o.path.last().copied().unwrap_or(o.m);
@@ -1667,7 +1675,15 @@ pub fn random_op(r2: &R2, rng: &mut crate::util::Rng) -> AbsOp {
     let mut o = AbsOp { m, m2: usize::MAX, side_long: rng.chance(1, 2), a: 1 + rng.below(4), user: rng.below(2) as usize, ..Default::default() };
     let (m1, m2, m3) = (mi(r2, "M1"), mi(r2, "M2"), mi(r2, "M3"));
     let (ta, tb, tc) = (0usize, 1usize, 2usize);
-    match rng.below(14) {
+    match rng.below(18) {
+        14 | 15 => {
+            o.op = "increase".into();
+            o.m = *rng.pick(&two);
+        }
+        16 | 17 => {
+            o.op = "decrease".into();
+            o.m = *rng.pick(&two);
+        }
         0 | 1 => o.op = "deposit".into(),
         2 => o.op = "withdraw".into(),
         3 | 4 => {
@@ -1775,5 +1791,352 @@ impl R2 {
         acc.data[pos..pos + image.len()].copy_from_slice(bytemuck::bytes_of(&new));
         w.set_account(*action, acc);
         true
+    }
+}
+
+// =====================================================================================================
+// Position orders (MarketIncrease / MarketDecrease) - gives the markets non-zero position collateral.
+impl R2 {
+    pub fn position_pda(&self, owner: &Pubkey, m: &Mkt, collateral: &Pubkey, is_long: bool) -> Pubkey {
+        use gmsol_store::states::Position;
+        let kind: u8 = if is_long { 1 } else { 2 };
+        Pubkey::find_program_address(
+            &[Position::SEED, self.store.as_ref(), owner.as_ref(), m.market_token.as_ref(), collateral.as_ref(), &[kind]],
+            &gmsol_store::ID,
+        )
+        .0
+    }
+
+    pub fn trade_buffer(&self, authority: &Pubkey, index: u16) -> Pubkey {
+        use gmsol_store::events::TradeData;
+        Pubkey::find_program_address(&[TradeData::SEED, self.store.as_ref(), authority.as_ref(), &index.to_le_bytes()], &gmsol_store::ID).0
+    }
+
+    pub fn claimable_pda(&self, w: &World, mint: &Pubkey, owner: &Pubkey, ts: i64) -> Pubkey {
+        let store: Store = w.account_data(&self.store).expect("store");
+        let key = store.claimable_time_key(ts).expect("time key");
+        Pubkey::find_program_address(
+            &[gmsol_store::constants::CLAIMABLE_ACCOUNT_SEED, self.store.as_ref(), mint.as_ref(), owner.as_ref(), &key],
+            &gmsol_store::ID,
+        )
+        .0
+    }
+
+    fn position_order_params(
+        kind: gmsol_utils::order::OrderKind,
+        is_long: bool,
+        is_collateral_long: bool,
+        collateral_amount: u64,
+        size_usd: u128,
+    ) -> gmsol_store::ops::order::CreateOrderParams {
+        use gmsol_model::action::decrease_position::DecreasePositionSwapType;
+        let decrease = matches!(kind, gmsol_utils::order::OrderKind::MarketDecrease);
+        gmsol_store::ops::order::CreateOrderParams {
+            kind,
+            decrease_position_swap_type: if decrease { Some(DecreasePositionSwapType::NoSwap) } else { None },
+            execution_lamports: EXEC_LAMPORTS,
+            swap_path_length: 0,
+            initial_collateral_delta_amount: collateral_amount,
+            size_delta_value: size_usd,
+            is_long,
+            is_collateral_long,
+            min_output: None,
+            trigger_price: None,
+            acceptable_price: None,
+            should_unwrap_native_token: false,
+            valid_from_ts: None,
+        }
+    }
+
+    /// prepare_position + escrow ATAs + create_order_v2 (MarketIncrease / MarketDecrease) as one transaction
+    #[allow(clippy::too_many_arguments)]
+    pub fn create_position_order(
+        &self,
+        w: &mut World,
+        owner: &Pubkey,
+        m: &Mkt,
+        nonce: &[u8; 32],
+        increase: bool,
+        is_long: bool,
+        is_collateral_long: bool,
+        collateral_amount: u64,
+        size_usd: u128,
+    ) -> ExecResult {
+        use gmsol_utils::order::OrderKind;
+        let kind = if increase { OrderKind::MarketIncrease } else { OrderKind::MarketDecrease };
+        let params = Self::position_order_params(kind, is_long, is_collateral_long, collateral_amount, size_usd);
+        let (lt, stk) = (self.toks[m.long].mint, self.toks[m.short].mint);
+        let c = if is_collateral_long { lt } else { stk };
+        let order = self.order_pda(owner, nonce);
+        let position = self.position_pda(owner, m, &c, is_long);
+        let mut ixs = vec![
+            st::ix(
+                gmsol_store::accounts::PreparePosition { owner: *owner, store: self.store, market: m.market, position, system_program: system_program::ID },
+                gmsol_store::instruction::PreparePosition { params: params.clone() },
+            ),
+            ata_ix(owner, &order, &lt),
+            ata_ix(owner, &order, &stk),
+        ];
+        ixs.push(st::ix(
+            gmsol_store::accounts::CreateOrderV2 {
+                owner: *owner,
+                receiver: *owner,
+                store: self.store,
+                market: m.market,
+                user: st::user_pda(&self.store, owner),
+                order,
+                position: Some(position),
+                initial_collateral_token: if increase { Some(c) } else { None },
+                final_output_token: c,
+                long_token: Some(lt),
+                short_token: Some(stk),
+                initial_collateral_token_escrow: if increase { Some(spl::ata(&order, &c)) } else { None },
+                final_output_token_escrow: if increase { None } else { Some(spl::ata(&order, &c)) },
+                long_token_escrow: Some(spl::ata(&order, &lt)),
+                short_token_escrow: Some(spl::ata(&order, &stk)),
+                initial_collateral_token_source: if increase { Some(spl::ata(owner, &c)) } else { None },
+                system_program: system_program::ID,
+                token_program: spl_token::ID,
+                associated_token_program: spl_associated_token_account::ID,
+                callback_authority: None,
+                callback_program: None,
+                callback_shared_data_account: None,
+                callback_partitioned_data_account: None,
+                event_authority: st::event_authority(&gmsol_store::ID),
+                program: gmsol_store::ID,
+            },
+            gmsol_store::instruction::CreateOrderV2 { nonce: *nonce, params, callback_version: None },
+        ));
+        w.execute_tx(&ixs, &[*owner])
+    }
+
+    /// keeper preparation outside the recorded instruction: trade event buffer (index 0) and, for a
+    /// decrease, the three claimable accounts of the current time window
+    pub fn prepare_keeper_accounts(&self, w: &mut World, owner: &Pubkey, m: &Mkt, decrease: bool, pnl_long: bool) {
+        let keeper = self.keeper;
+        let event = self.trade_buffer(&keeper, 0);
+        must(
+            "prepare_trade_event_buffer",
+            w.execute(
+                &st::ix(
+                    gmsol_store::accounts::PrepareTradeEventBuffer { authority: keeper, store: self.store, event, system_program: system_program::ID },
+                    gmsol_store::instruction::PrepareTradeEventBuffer { index: 0 },
+                ),
+                &[keeper],
+            ),
+        );
+        if decrease {
+            let ts = w.clock().0;
+            let store: Store = w.account_data(&self.store).expect("store");
+            let holding = *store.holding();
+            let (lt, stk) = (self.toks[m.long].mint, self.toks[m.short].mint);
+            let pnl = if pnl_long { lt } else { stk };
+            for (mint, who) in [(lt, *owner), (stk, *owner), (pnl, holding)] {
+                let account = self.claimable_pda(w, &mint, &who, ts);
+                must(
+                    "use_claimable_account",
+                    w.execute(
+                        &st::ix(
+                            gmsol_store::accounts::UseClaimableAccount {
+                                authority: keeper,
+                                store: self.store,
+                                mint,
+                                owner: who,
+                                account,
+                                system_program: system_program::ID,
+                                token_program: spl_token::ID,
+                            },
+                            gmsol_store::instruction::UseClaimableAccount { timestamp: ts, amount: 0 },
+                        ),
+                        &[keeper],
+                    ),
+                );
+            }
+        }
+    }
+
+    pub fn execute_position_order_ix(&self, w: &World, executor: &Pubkey, order: &Pubkey, throw: bool) -> Instruction {
+        let Some(o) = self.order(w, order) else {
+            return self.execute_missing_ix(executor, order);
+        };
+        let owner = *o.header().owner();
+        let m = self.mkt_by_key(o.header().market()).expect("market of order");
+        let (lt, stk) = (self.toks[m.long].mint, self.toks[m.short].mint);
+        let position = *o.params().position().expect("position of order");
+        let increase = matches!(o.params().kind(), Ok(gmsol_utils::order::OrderKind::MarketIncrease));
+        let event = self.trade_buffer(executor, 0);
+        let ts = w.clock().0;
+        let mut ix = if increase {
+            let c = o.tokens().initial_collateral().token().expect("collateral");
+            st::ix(
+                gmsol_store::accounts::ExecuteIncreaseOrSwapOrderV2 {
+                    authority: *executor,
+                    store: self.store,
+                    token_map: self.token_map,
+                    oracle: self.oracle,
+                    market: m.market,
+                    owner,
+                    user: st::user_pda(&self.store, &owner),
+                    order: *order,
+                    position: Some(position),
+                    event: Some(event),
+                    initial_collateral_token: Some(c),
+                    final_output_token: None,
+                    long_token: Some(lt),
+                    short_token: Some(stk),
+                    initial_collateral_token_escrow: o.tokens().initial_collateral().account(),
+                    final_output_token_escrow: None,
+                    long_token_escrow: o.tokens().long_token().account(),
+                    short_token_escrow: o.tokens().short_token().account(),
+                    initial_collateral_token_vault: Some(market_vault_pda(&self.store, &c)),
+                    final_output_token_vault: None,
+                    long_token_vault: Some(market_vault_pda(&self.store, &lt)),
+                    short_token_vault: Some(market_vault_pda(&self.store, &stk)),
+                    token_program: spl_token::ID,
+                    system_program: system_program::ID,
+                    callback_authority: None,
+                    callback_program: None,
+                    callback_shared_data_account: None,
+                    callback_partitioned_data_account: None,
+                    event_authority: st::event_authority(&gmsol_store::ID),
+                    program: gmsol_store::ID,
+                },
+                gmsol_store::instruction::ExecuteIncreaseOrSwapOrderV2 { recent_timestamp: ts, execution_fee: EXEC_FEE, throw_on_execution_error: throw },
+            )
+        } else {
+            let c = o.tokens().final_output_token().token().expect("final output token");
+            let store: Store = w.account_data(&self.store).expect("store");
+            let holding = *store.holding();
+            let pos: gmsol_store::states::Position = w.account_data(&position).expect("position");
+            let pnl = if pos.kind == 1 { lt } else { stk };
+            st::ix(
+                gmsol_store::accounts::ExecuteDecreaseOrderV2 {
+                    authority: *executor,
+                    store: self.store,
+                    token_map: self.token_map,
+                    oracle: self.oracle,
+                    market: m.market,
+                    owner,
+                    user: st::user_pda(&self.store, &owner),
+                    order: *order,
+                    position,
+                    event,
+                    final_output_token: c,
+                    long_token: lt,
+                    short_token: stk,
+                    final_output_token_escrow: o.tokens().final_output_token().account().expect("escrow"),
+                    long_token_escrow: o.tokens().long_token().account().expect("escrow"),
+                    short_token_escrow: o.tokens().short_token().account().expect("escrow"),
+                    final_output_token_vault: market_vault_pda(&self.store, &c),
+                    long_token_vault: market_vault_pda(&self.store, &lt),
+                    short_token_vault: market_vault_pda(&self.store, &stk),
+                    claimable_long_token_account_for_user: self.claimable_pda(w, &lt, &owner, ts),
+                    claimable_short_token_account_for_user: self.claimable_pda(w, &stk, &owner, ts),
+                    claimable_pnl_token_account_for_holding: self.claimable_pda(w, &pnl, &holding, ts),
+                    token_program: spl_token::ID,
+                    system_program: system_program::ID,
+                    callback_authority: None,
+                    callback_program: None,
+                    callback_shared_data_account: None,
+                    callback_partitioned_data_account: None,
+                    event_authority: st::event_authority(&gmsol_store::ID),
+                    program: gmsol_store::ID,
+                },
+                gmsol_store::instruction::ExecuteDecreaseOrderV2 { recent_timestamp: ts, execution_fee: EXEC_FEE, throw_on_execution_error: throw },
+            )
+        };
+        let path: Vec<Pubkey> = o.swap().iter().copied().collect();
+        ix.accounts.extend(self.exec_remaining(o.swap().tokens(), &path, &m.market_token));
+        payer_writable(&mut ix, executor);
+        ix
+    }
+
+    pub fn close_position_order(&self, w: &mut World, executor: &Pubkey, owner: &Pubkey, order: &Pubkey, m: &Mkt, increase: bool, collateral: Pubkey) -> ExecResult {
+        let (lt, stk) = (self.toks[m.long].mint, self.toks[m.short].mint);
+        let c = collateral;
+        let mut ix = st::ix(
+            gmsol_store::accounts::CloseOrderV2 {
+                executor: *executor,
+                store: self.store,
+                store_wallet: self.store_wallet,
+                owner: *owner,
+                receiver: *owner,
+                rent_receiver: *owner,
+                user: st::user_pda(&self.store, owner),
+                referrer_user: None,
+                order: *order,
+                initial_collateral_token: if increase { Some(c) } else { None },
+                final_output_token: if increase { None } else { Some(c) },
+                long_token: Some(lt),
+                short_token: Some(stk),
+                initial_collateral_token_escrow: if increase { Some(spl::ata(order, &c)) } else { None },
+                final_output_token_escrow: if increase { None } else { Some(spl::ata(order, &c)) },
+                long_token_escrow: Some(spl::ata(order, &lt)),
+                short_token_escrow: Some(spl::ata(order, &stk)),
+                initial_collateral_token_ata: if increase { Some(spl::ata(owner, &c)) } else { None },
+                final_output_token_ata: if increase { None } else { Some(spl::ata(owner, &c)) },
+                long_token_ata: Some(spl::ata(owner, &lt)),
+                short_token_ata: Some(spl::ata(owner, &stk)),
+                system_program: system_program::ID,
+                token_program: spl_token::ID,
+                associated_token_program: spl_associated_token_account::ID,
+                callback_authority: None,
+                callback_program: None,
+                callback_shared_data_account: None,
+                callback_partitioned_data_account: None,
+                event_authority: st::event_authority(&gmsol_store::ID),
+                program: gmsol_store::ID,
+            },
+            gmsol_store::instruction::CloseOrderV2 { reason: "verif".into() },
+        );
+        payer_writable(&mut ix, executor);
+        w.execute(&ix, &[*executor])
+    }
+
+    /// create -> execute -> close of a MarketIncrease (increase = true) or MarketDecrease order.
+    /// A decrease closes `size_usd` of the position (capped by the program) and withdraws `collateral_amount`.
+    #[allow(clippy::too_many_arguments)]
+    pub fn flow_position(
+        &self,
+        w: &mut World,
+        rec: &mut dyn Recorder,
+        user: &Pubkey,
+        mi: usize,
+        nonce: &[u8; 32],
+        increase: bool,
+        is_long: bool,
+        is_collateral_long: bool,
+        collateral_amount: u64,
+        size_usd: u128,
+    ) -> Option<u8> {
+        let m = self.mkts[mi].clone();
+        let c = self.toks[if is_collateral_long { m.long } else { m.short }].mint;
+        let mut info = Info {
+            op: if increase { "create_increase" } else { "create_decrease" }.into(),
+            touched: vec![mi],
+            side: if is_collateral_long { "long" } else { "short" }.into(),
+            amt: collateral_amount,
+            direction: "position".into(),
+            current: Some(mi),
+            ..Default::default()
+        };
+        let r = rec.exec(w, &info, &mut |w: &mut World| self.create_position_order(w, user, &m, nonce, increase, is_long, is_collateral_long, collateral_amount, size_usd));
+        if !r.ok {
+            return None;
+        }
+        let o = self.order_pda(user, nonce);
+        self.tick(w);
+        self.prepare_keeper_accounts(w, user, &m, !increase, is_long);
+        info.op = if increase { "execute_increase" } else { "execute_decrease" }.into();
+        info.action = Some(o);
+        let keeper = self.keeper;
+        rec.exec(w, &info, &mut |w: &mut World| {
+            let ix = self.execute_position_order_ix(w, &keeper, &o, false);
+            w.execute(&ix, &[keeper])
+        });
+        let state = self.action_state(w, &o);
+        info.op = if increase { "close_increase" } else { "close_decrease" }.into();
+        rec.exec(w, &info, &mut |w: &mut World| self.close_position_order(w, user, user, &o, &m, increase, c));
+        state
     }
 }
